@@ -185,6 +185,9 @@ def check_emit(rep, fx):
                         # (a + b).0 of AddWithOverflow, or plain Add
                         while isinstance(v, tuple) and v[0] == 'proj':
                             v = v[1]
+                        v = unwrap_value(v)
+                        if isinstance(v, tuple) and v[0] == 'call' and v[1].endswith('::checked_add') and len(v[2]) == 2:
+                            v = ('bin', 'Add', v[2][0], v[2][1])
                         if isinstance(v, tuple) and v[0] == 'bin' and v[1].startswith('Add'):
                             a, b = unwrap_value(v[2]), unwrap_value(v[3])
                             names = sorted(z[1] for z in (a, b) if isinstance(z, tuple) and z[0] == 'call')
